@@ -5,7 +5,7 @@ For every /tmp/mut/*/out/<id>/: in a scratch worktree of /repo HEAD, (1) demo pa
 unchanged tree), (3) demo fails with the patch. Usage: tools_confirm_seeded.py [ids...]"""
 import glob, json, os, re, shutil, subprocess, sys
 ROOT = os.path.dirname(os.path.abspath(__file__))
-SCR = "/tmp/seedconfirm/repo"
+SCR = "/tmp/seedconfirm_%d/repo" % os.getpid()
 ENV = dict(os.environ, GOFLAGS="-mod=mod", GOPROXY="off", GOSUMDB="off", GOTOOLCHAIN="local")
 
 def sh(cmd, cwd=None, timeout=1500):
@@ -24,9 +24,12 @@ def failing_tests(pkgs):
 
 def main():
     want = set(sys.argv[1:])
-    sh(f"git -C /repo worktree remove --force {SCR}; rm -rf /tmp/seedconfirm; mkdir -p /tmp/seedconfirm && git -C /repo worktree add --detach {SCR} HEAD")
-    for d in sorted(glob.glob("/tmp/mut/*/out/C*-*")):
+    sh(f"git -C /repo worktree remove --force {SCR}; rm -rf {os.path.dirname(SCR)}; mkdir -p {os.path.dirname(SCR)} && git -C /repo worktree add --detach {SCR} HEAD")
+    for d in sorted(glob.glob("/tmp/mut/*/out/C*-*")) + sorted(glob.glob("/tmp/mut2/*/out/C*-*")):
         sid = os.path.basename(d)
+        if d.startswith("/tmp/mut2/"):   # second round: ids continue after the first round's 1..3
+            pfx, n = sid.rsplit("-", 1)
+            sid = f"{pfx}-{int(n) + 3}"
         if want and sid not in want:
             continue
         if os.path.exists(os.path.join(ROOT, "seeded", sid, "meta.json")) and not want:
@@ -83,7 +86,7 @@ def main():
                 packages_tested=pkgs, failing_tests_unchanged=base_fail, failing_tests_patched=pat_fail,
                 note="existing tests of the touched packages: no test that passes on the unchanged tree fails with the patch")
             json.dump(meta, open(os.path.join(dst, "meta.json"), "w"), indent=1)
-    sh(f"git -C /repo worktree remove --force {SCR}; rm -rf /tmp/seedconfirm")
+    sh(f"git -C /repo worktree remove --force {SCR}; rm -rf {os.path.dirname(SCR)}")
 
 if __name__ == "__main__":
     main()
